@@ -79,7 +79,46 @@ func NewDriver(w *WorldJSON, cfg Cfg) *Driver {
 		reqName: map[string]string{}, reqID: map[string]string{}, codeRaw: map[string]string{}, codeNm: map[string]string{},
 		atRaw: map[string]string{}, atNm: map[string]string{}, rtNm: map[string]string{}, rtRaw: map[string]string{},
 		idtRaw: map[string]string{}, idtNm: map[string]string{}, dcRaw: map[string]string{}, dcNm: map[string]string{}, ucOf: map[string]string{}}
+	d.primeSiblings()
 	return d
+}
+
+// SiblingOf names a client the storage holds besides the clients of the world: it authenticates with private_key_jwt and its key
+// carries the SAME key id as client c's key (key ids are unique per client only), with different key material.
+func SiblingOf(c string) string { return "sibling-of-" + c }
+
+// SiblingKey is the sibling client's private key (kid = kid of c's key).
+func SiblingKey(c string) *modelstore.SignKey {
+	k := *modelstore.GenKey("sibling-of-"+c, jose.ES256)
+	k.KID = ClientKey(c).KID
+	return &k
+}
+
+// primeSiblings registers the sibling of every private_key_jwt client and lets it authenticate once, successfully, before the
+// history starts (an introspection of a garbage token): whatever the provider remembers about that key id, it now remembers.
+func (d *Driver) primeSiblings() {
+	for id, c := range d.World.Clients {
+		if c.Auth == "pkjwt" {
+			d.primeSibling(id)
+		}
+	}
+}
+
+// primeSibling: the sibling of client id authenticates successfully (environment action of another legitimate client).
+func (d *Driver) primeSibling(id string) {
+	{
+		k := SiblingKey(id)
+		d.Store.Lock()
+		d.Store.Clients[SiblingOf(id)] = &modelstore.ClientReg{ID: SiblingOf(id), Auth: "pkjwt", App: "web", Grants: []string{"bearer"}, ATType: "opaque", IDTLifetime: time.Hour,
+			Keys: map[string]*jose.JSONWebKey{k.KID: {Key: k.Pub, KeyID: k.KID, Use: "sig", Algorithm: string(k.Alg)}}}
+		d.Store.Unlock()
+		form := url.Values{"token": {"garbage"}, "client_assertion_type": {oidc.ClientAssertionTypeJWTAssertion},
+			"client_assertion": {SignAssertion(SiblingOf(id), SiblingOf(id), []string{Issuer}, time.Now(), time.Now().Add(time.Minute), k)}}
+		req := httptest.NewRequest(http.MethodPost, Issuer+"/oauth/introspect", strings.NewReader(form.Encode()))
+		req.Header.Set("Content-Type", "application/x-www-form-urlencoded")
+		Serve(d.H, req)
+		d.Store.ResetJournal()
+	}
 }
 
 // ------------------------------------------------------------ out record (mirror of OP!NoOut)
@@ -236,8 +275,12 @@ func (d *Driver) applyCred(form url.Values, hdr http.Header, caller string, cred
 		form.Set("client_secret", secret)
 	case "assertion":
 		key := ClientKey(caller)
-		if S(cred, "key") == "foreign" {
+		switch S(cred, "key") {
+		case "foreign":
 			key = ForeignKey(caller)
+		case "sibling":
+			// signed by ANOTHER registered client's key that carries the same key id (that client has authenticated before)
+			key = SiblingKey(caller)
 		}
 		form.Set("client_assertion_type", oidc.ClientAssertionTypeJWTAssertion)
 		form.Set("client_assertion", SignAssertion(caller, caller, []string{Issuer}, time.Now(), time.Now().Add(time.Minute), key))
@@ -863,6 +906,12 @@ func verifierString(v string) string {
 // Exec runs one abstract operation against the real provider and returns its projected outcome.
 func (d *Driver) Exec(opName string, a M) M {
 	out := NoOut()
+	if c := S(a, "caller"); S(Sub(a, "cred"), "key") == "sibling" && c != "" {
+		if cl, ok := d.World.Clients[c]; ok && cl.Auth == "pkjwt" {
+			// the sibling client (same key id, other key) has just authenticated itself: the most recent key seen under that key id is its key
+			d.primeSibling(c)
+		}
+	}
 	d.Store.ResetJournal()
 	d.LastRaw = nil
 	if f := S(a, "fault"); f != "" {
